@@ -17,7 +17,7 @@ func init() {
 			"C01-R1 the list stored into a recipe is the value last sorted; C01-R2 the sort order is element name ascending; " +
 			"C01-R3 a recipe's elements are merged only after that recipe was expanded in the same iteration; " +
 			"C01-R4 Elements.SumMerge accumulates by name (existing name: one += of value x multiplier on the slot Index returned; new name: one Add; nothing else written, in particular no aliasing store of the argument list); " +
-			"C01-R5 the list under construction grows only through that merge, with the ingredient's own quantity as coefficient and {name, quantity} x 1 for undefined names; " +
+			"C01-R5 the list under construction grows only through that merge, with the ingredient's own quantity as coefficient and {name, quantity} x 1 for undefined names, and no amount in it is rewritten in place afterwards (rounded, clamped, scaled); " +
 			"C01-R6 Elements.Add appends exactly {name,val} and Elements.Index reports found only for an equal name; " +
 			"C11-R3/R5 (shared with C11) the depth limit in force is the one configured: stored from --maxdepth only when set or nothing configured, handed to the walk untransformed; C04-R1/R2 (shared with C04) every heading of the book is delivered exactly once, including an empty recipe at the end of the file. Also: C01-R3 requires the merged list of an ingredient's recipe to be read after that recipe was expanded. C01-R7 every record the book-loading callback is handed without an error is stored in the book; C11-R8 a command's configuration takes its resolver section from the loaded options.",
 		NotDecided: "that the numbers equal the sum over paths of the products (floating point), idempotence of resolving twice, DAG shape, order-independence of the values",
@@ -32,6 +32,7 @@ func init() {
 			if len(rs) == 0 {
 				c.Undecide("C01-R1", "resolver", "universe", "-", "package resolver has no recursive resolver: the universe of the rule is empty although Resolve must expand nested recipes somehow", nil)
 			}
+			ruleResolverShapes(c, "C01-R1")
 			ruleLessByName(c, "C01-R2")
 			if fn := c.P.LookupMethod(core.LibPath, "Elements", "SumMerge"); requireAnchor(c, "C01-R4", "Elements.SumMerge", fn != nil) {
 				ruleMergeByName(c, "C01-R4", fn, true)
@@ -53,7 +54,7 @@ func init() {
 			"C11-R4 the loops that drive resolution do not depend on map order; C11-R5 entry points start every walk at depth 0 and hand the configured limit to the walk untransformed (a field or parameter read, no clamp, offset or substitute); " +
 			"C11-R3 the limit N the user gives (--maxdepth, HR_MAXDEPTH, configuration file) is the one stored for the resolver: it is overwritten from the flag only when the flag is set or nothing was configured, and a set flag always wins; C11-R6 if --maxdepth is ever declared on a command as well as on the application it is read through the context lineage, so the global flag and HR_MAXDEPTH still reach the resolver; " +
 			"C11-R7 the maximum-depth error made inside package resolver reaches the result of every function it passes through, up to the command (must-flow: on every path on which a call that can return it fails, the caller returns a non-nil error), so a book that is too deep or cyclic is never reported as success; " +
-			"C01-R4 (shared) merging keeps every ingredient of an expanded recipe whatever its amount, so how deep a later walk goes does not depend on values being zero. C11-R8 a command's configuration takes its resolver section from the loaded options (or an adjusted copy), never from a fresh default; C16-R3 (shared) the environment variable documented for the limit is the one the flag declares.",
+			"C01-R4 (shared) merging keeps every ingredient of an expanded recipe whatever its amount, so how deep a later walk goes does not depend on values being zero. C11-R8 a command's configuration takes its resolver section from the loaded options (or an adjusted copy), never from a fresh default; C16-R3 (shared) the environment variable documented for the limit is the one the flag declares. C11-R2 also requires every iteration over the ingredients to descend to that ingredient.",
 		NotDecided: "that the limit trips exactly when some chain has N or more references independently of the order of visits (recipes are flattened in place, so a later walk is shallower: defect D10 in DESIGN.md, out of reach for a necessary-condition rule); provenance of the default bound (C16-R5)",
 		Run: func(c *core.Ctx) {
 			ruleSettingTables(c, "C16-R3") // the limit documented for the environment is the one declared
@@ -66,6 +67,7 @@ func init() {
 			if len(rs) == 0 {
 				c.Undecide("C11-R2", "resolver", "universe", "-", "package resolver has no recursive resolver", nil)
 			}
+			ruleResolverShapes(c, "C11-R2")
 			RuleMapRanges(c, "C11-R4", func(s mapRangeSite) bool { return s.pkg.PkgPath == resolverPkg })
 			ruleResolverEntries(c, "C11-R5", true, true)
 			ruleGuardedOverridesOnly(c, "C11-R3", "MaxDepth")
@@ -73,6 +75,10 @@ func init() {
 			// the error of the limit: created inside package resolver, it must reach the command's result
 			runErrorFlow(c, "C11-R7", func(cal *ssa.Function, ci ssa.CallInstruction) (bool, string) {
 				in, ok := ci.(ssa.Instruction)
+				// the error kept as a sentinel (var errMaxDepth = errors.New(…)): a function of the package that returns it
+				if cal != nil && core.FnPkgPath(cal) == resolverPkg && returnsSentinel(cal) {
+					return true, "the depth limit was reached"
+				}
 				if cal == nil || !ok || in.Parent() == nil || core.FnPkgPath(in.Parent()) != resolverPkg {
 					return false, ""
 				}
@@ -86,4 +92,24 @@ func init() {
 			}
 		},
 	})
+}
+
+// returnsSentinel: some return of fn hands back the value of a sentinel error variable.
+func returnsSentinel(fn *ssa.Function) bool {
+	for _, b := range fn.Blocks {
+		ret, ok := b.Instrs[len(b.Instrs)-1].(*ssa.Return)
+		if !ok {
+			continue
+		}
+		for _, r := range ret.Results {
+			if ld, ok := r.(*ssa.UnOp); ok {
+				if g, ok := ld.X.(*ssa.Global); ok {
+					if _, isErr := core.ErrVars[g]; isErr {
+						return true
+					}
+				}
+			}
+		}
+	}
+	return false
 }
